@@ -73,8 +73,95 @@ static void emit_snap(void) {
   vf_logf("]}"); vf_log_line_end();
   nsnaps++;
 }
-static void vf_trace_step(int kind, const volatile void* addr, uintptr_t oldv, uintptr_t newv, int ok) {
-  (void)addr; (void)oldv; (void)newv; (void)ok;
+/* ---- step log (refinement level, StepTrace.tla): every atomic operation the allocator performs on a page's xthread_free / xheap
+   word or on a heap's thread_delayed_free word, with the allocator function it belongs to, the value observed and the value
+   written.  Words are recognised by address arithmetic only (segment header layout), pages and heaps get small ids on first
+   sight, list heads are given as (page id, block index, remainder). */
+#include <sys/mman.h>
+static int steps_on = 0;
+static long nsteps = 0;
+#define STEP_MAXSEG 128
+static struct { uintptr_t sg; int ok; } step_segs[STEP_MAXSEG]; static int step_nsegs = 0;
+#define STEP_MAXPG 1024
+static struct { uintptr_t sg; int idx; } step_pages[STEP_MAXPG]; static int step_npages = 0;
+#define STEP_MAXHP 64
+static uintptr_t step_heaps[STEP_MAXHP]; static int step_nheaps = 0;
+static int step_seg_ok(uintptr_t sg) {     /* is there a segment header at sg?  (checked once: mapped, cookie) */
+  for (int i = 0; i < step_nsegs; i++) if (step_segs[i].sg == sg) return step_segs[i].ok;
+  unsigned char vec[1]; int ok = 0;
+  if (sg != 0 && mincore((void*)sg, 4096, vec) == 0) { mi_segment_t* seg = (mi_segment_t*)sg; ok = (_mi_ptr_cookie(seg) == seg->cookie); }
+  if (ok && step_nsegs < STEP_MAXSEG) { step_segs[step_nsegs].sg = sg; step_segs[step_nsegs].ok = ok; step_nsegs++; }   /* (only positive answers are kept: memory may become a segment later) */
+  return ok;
+}
+static int step_pgid(uintptr_t sg, int idx) {
+  for (int i = 0; i < step_npages; i++) if (step_pages[i].sg == sg && step_pages[i].idx == idx) return i + 1;
+  if (step_npages >= STEP_MAXPG) return 0;
+  step_pages[step_npages].sg = sg; step_pages[step_npages].idx = idx; return ++step_npages;
+}
+static int step_hpid(uintptr_t h) {
+  if (h == 0) return 0;
+  for (int i = 0; i < step_nheaps; i++) if (step_heaps[i] == h) return i + 1;
+  if (step_nheaps >= STEP_MAXHP) return 0;
+  step_heaps[step_nheaps] = h; return ++step_nheaps;
+}
+/* (page id, block index, remainder) of an address inside a page area; pg = 0: NULL, pg = -1: not inside a known page */
+typedef struct { int pg; long idx; long rem; } bref_t;
+static bref_t step_bref(uintptr_t p, mi_page_t* hint) {
+  bref_t r = { 0, 0, 0 };
+  if (p == 0) return r;
+  r.pg = -1;
+  mi_page_t* page = hint; uintptr_t sg = 0;
+  if (page == NULL || page->page_start == NULL || p < (uintptr_t)page->page_start || p >= (uintptr_t)page->page_start + (size_t)page->reserved * mi_page_block_size(page) + 1) {
+    sg = (p - 1) & ~(uintptr_t)MI_SEGMENT_MASK;
+    if (!step_seg_ok(sg)) return r;
+    mi_segment_t* seg = (mi_segment_t*)sg;
+    size_t si = (p - sg) >> MI_SEGMENT_SLICE_SHIFT; if (si >= seg->slice_entries) si = 0;   /* (huge blocks: the first page) */
+    mi_slice_t* sl = &seg->slices[si]; sl = (mi_slice_t*)((uint8_t*)sl - sl->slice_offset);
+    if ((uintptr_t)sl < (uintptr_t)&seg->slices[0] || (uintptr_t)sl >= (uintptr_t)&seg->slices[MI_SLICES_PER_SEGMENT + 1]) return r;
+    page = (mi_page_t*)sl;
+  }
+  size_t bs = mi_page_block_size(page);
+  if (bs == 0 || page->page_start == NULL || p < (uintptr_t)page->page_start) return r;
+  uintptr_t psg = (uintptr_t)page & ~(uintptr_t)MI_SEGMENT_MASK;
+  r.pg = step_pgid(psg, (int)(((uintptr_t)page - (uintptr_t)&((mi_segment_t*)psg)->slices[0]) / sizeof(mi_slice_t)));
+  r.idx = (long)((p - (uintptr_t)page->page_start) / bs); r.rem = (long)((p - (uintptr_t)page->page_start) % bs);
+  return r;
+}
+static void step_log(const char* fn, int kind, const volatile void* addr, uintptr_t oldv, uintptr_t newv, int ok) {
+  uintptr_t a = (uintptr_t)addr;
+  const char* w = NULL; int id = 0; mi_page_t* page = NULL;
+  for (int i = 0; i < step_nheaps && w == NULL; i++) if (a == step_heaps[i] + offsetof(mi_heap_t, thread_delayed_free)) { w = "dh"; id = i + 1; }
+  if (w == NULL) {
+    uintptr_t sg = a & ~(uintptr_t)MI_SEGMENT_MASK; size_t off = a - sg;
+    if (off < offsetof(mi_segment_t, slices) || off >= sizeof(mi_segment_t)) return;
+    size_t fo = (off - offsetof(mi_segment_t, slices)) % sizeof(mi_slice_t);
+    if (fo != offsetof(mi_page_t, xthread_free) && fo != offsetof(mi_page_t, xheap)) return;
+    if (!step_seg_ok(sg)) return;
+    int idx = (int)((off - offsetof(mi_segment_t, slices)) / sizeof(mi_slice_t));
+    page = (mi_page_t*)&((mi_segment_t*)sg)->slices[idx];
+    w = (fo == offsetof(mi_page_t, xthread_free) ? "xtf" : "xheap"); id = step_pgid(sg, idx);
+  }
+  static const char* kn[] = {"?", "ld", "st", "xchg", "casw", "cass", "add", "sub", "and", "or", "yield", "lock", "unlock"};
+  vf_logf("{\"e\":\"step\",\"t\":%d,\"f\":\"%s\",\"k\":\"%s\",\"w\":\"%s\",\"id\":%d,\"ok\":%s", cur_t, fn, kn[kind < 13 ? kind : 0], w, id, ok ? "true" : "false");
+  if (w[0] == 'x' && w[1] == 't') {
+    bref_t o = step_bref(oldv & ~(uintptr_t)3, page), n = step_bref(newv & ~(uintptr_t)3, page);
+    vf_logf(",\"o\":[%d,%d,%ld,%ld],\"n\":[%d,%d,%ld,%ld]", (int)(oldv & 3), o.pg, o.idx, o.rem, (int)(newv & 3), n.pg, n.idx, n.rem);
+  }
+  else if (w[0] == 'd') {
+    bref_t o = step_bref(oldv, NULL), n = step_bref(newv, NULL);
+    vf_logf(",\"o\":[0,%d,%ld,%ld],\"n\":[0,%d,%ld,%ld]", o.pg, o.idx, o.rem, n.pg, n.idx, n.rem);
+  }
+  else {
+    int ho = step_hpid(oldv), hn = step_hpid(newv);
+    vf_logf(",\"o\":[%d,0,0,0],\"n\":[%d,0,0,0]", ho, hn);
+  }
+  void* fp = (cur_t >= 0 && cur_t < 16) ? vf_flight[cur_t] : NULL;
+  bref_t f = step_bref((uintptr_t)fp, NULL);
+  vf_logf(",\"fl\":[%d,%ld]}", fp ? f.pg : 0, f.idx); vf_log_line_end();
+  nsteps++;
+}
+static void vf_trace_step(const char* fn, int kind, const volatile void* addr, uintptr_t oldv, uintptr_t newv, int ok) {
+  if (steps_on && kind >= VF_K_LOAD && kind <= VF_K_CASS) { vf_in_hook = 1; int saved = vf_in_call; vf_in_call = 0; step_log(fn, kind, addr, oldv, newv, ok); vf_in_call = saved; vf_in_hook = 0; }
   if (snap_heap < 0 || kind == VF_K_LOAD) return;
   if ((vf_srand() % (uint64_t)snap_rate) != 0) return;
   vf_in_hook = 1; int saved = vf_in_call; vf_in_call = 0;
@@ -513,6 +600,7 @@ int main(int argc, char** argv) {
     else if (!strcmp(argv[i], "--spurious") && i + 1 < argc) { vf_spurious_left = atoi(argv[++i]); vf_spurious_rate = 6; }
     else if (!strcmp(argv[i], "--size") && i + 2 < argc) { blk_lo = (size_t)atol(argv[++i]); blk_hi = (size_t)atol(argv[++i]); }
     else if (!strcmp(argv[i], "--sched") && i + 1 < argc) schedfile = argv[++i];
+    else if (!strcmp(argv[i], "--steps") && i + 1 < argc) { steps_on = atoi(argv[++i]); }
     else if (!strcmp(argv[i], "--snap") && i + 1 < argc) { snapshots_on = 1; snap_rate = atoi(argv[++i]); if (snap_rate < 1) snap_rate = 1; }
     else { fprintf(stderr, "usage: drv_conc --out F [--prog P] [--seed S] [--runs N] [--strategy random|pct|guided|replay|dfs] [--sched file]\n"); return 2; }
   }
